@@ -270,9 +270,10 @@ def lemma_obligations(e: Engine) -> List[Obligation]:
     """Stand-alone obligations for the closed lemmas that were instantiated with use_lemma()."""
     out = []
     for lem in e.reg.lemmas:
-        if lem["name"] not in getattr(e, "lemmas_used", set()):
+        if lem["name"] not in getattr(e, "lemmas_used", set()) and not lem.get("always"):
             continue
         st = State()
+        st.alive = z3.Const("alive0", z3.ArraySort(Obj, z3.BoolSort()))
         env = {}
         for pdecl in lem["params"]:
             pn, pt = pdecl.split(":")
